@@ -36,6 +36,13 @@ RULE = ("grid cases: b-grid in {1, zero, N, randomQ_N, cube4D_N, fulldiv_8/40} (
         "(sigma<0,'LM'), (None,'SR'), tol in {1e-10,1e-12,0} (strict) and 1e-5 (workflow default; weak clauses only), k = min(12, n-2); "
         "sort cases: crafted complex solver outputs (unsorted, conjugate pairs, ties) pushed through get_decomposition with the solver "
         "stubbed; io cases: random save/load sequences with and without suffixes, collisions, missing files, wrong loader. "
+        "input representations: every grid case hands SQRA / DecompositionTool a seed-chosen representation of the same values "
+        "(borders, distances: as read, csr/coo/csc _array, csr/coo/csc/lil _matrix; volumes, energies: float64, non-contiguous and "
+        "read-only views; T, D: Python float, np.float64, np.float32, 0-d array; rate matrix: as returned, csr/coo/csc array and matrix, "
+        "lil_matrix, dense, np.matrix), and an exhaustive sweep (borders x distances 8 x 8, volumes x energies incl. float32 volumes, "
+        "T x D incl. int, matrix x 2 solver settings) runs on two small fixed pipelines with cached geometry; the result must equal "
+        "that of the reference representation (1e-12) and satisfy all clauses; representations the unchanged tree rejects are probed "
+        "and listed in the evidence. "
         "A grid case is non-trivial when the rate matrix has off-diagonal entries; distinct by all case fields.")
 CHUNK = 12
 MODEL_MAX_N = 360         # above this size only the oracle runs (interpreted Lean model: ~6 s at n = 300, quadratic)
@@ -84,6 +91,184 @@ class _EigsTap:
 
 
 TAP = _EigsTap()
+
+# ------------------------------------------------------------------------------------------------
+# input representations (the values are the same; only the Python / numpy / scipy object handed over differs)
+# ------------------------------------------------------------------------------------------------
+# Established on the unchanged tree (scipy 1.17.1, numpy 1.26.4): every representation below is accepted by
+# SQRA.get_rate_matrix / DecompositionTool.get_decomposition and gives the reference result (bit-identical, or within 1e-15
+# where a column-major storage order pairs S_ij with h_ji).  Not in the sweep (probed on every quick run, outcome in the evidence):
+REPS_NOT_IN_SWEEP = {
+    "borders/distances as dok_array, dok_matrix": "AttributeError: no attribute 'data' (the code divides the .data arrays)",
+    "borders/distances as dense ndarray / np.matrix": "AttributeError: no attribute 'tocoo'",
+    "volumes or energies as Python list / tuple": "TypeError: only integer scalar arrays can be converted to a scalar index "
+                                                  "(self.volumes[transition_matrix.row]); note FullGrid.get_total_volumes() itself returns a list",
+    "volumes or energies as column vector (n,1)": "ValueError: non-broadcastable output operand",
+    "volumes or energies with dtype=object": "UFuncTypeError / TypeError",
+    "energies as float32 (values exactly representable)": "accepted, but the exponent (E_i-E_j)*1000/(2RT) is then evaluated in float32: "
+                                                          "rate matrix differs from the float64 result by ~1e-7 relative (single precision)",
+    "D as fractions.Fraction / decimal.Decimal / str, T as Decimal / str": "ValueError / TypeError / UFuncTypeError",
+    "rate matrix for DecompositionTool as list of lists": "AttributeError: 'list' object has no attribute 'T'",
+    "rate matrix for DecompositionTool as float32 sparse": "accepted, single precision result (differs by ~1e-7)",
+}
+SP_REPS = ("asread", "csr_array", "coo_array", "csc_array", "csr_matrix", "coo_matrix", "csc_matrix", "lil_matrix")
+V_REPS = ("float64", "float32", "noncontig", "readonly")          # float32: the values are first made exactly representable
+E_REPS = ("float64", "noncontig", "readonly")
+SCALAR_REPS = ("pyfloat", "np.float64", "np.float32", "0-d array", "pyint")   # np.float32 / pyint: value made representable first
+Q_REPS = ("asreturned", "csr_array", "csr_matrix", "coo_array", "coo_matrix", "csc_array", "csc_matrix", "lil_matrix", "dense", "np.matrix")
+DEFAULT_REP = {"B": "asread", "Dm": "asread", "V": "float64", "E": "float64", "T": "pyfloat", "D": "pyfloat", "Q": "asreturned"}
+
+
+def _rep(case):
+    r = dict(DEFAULT_REP)
+    r.update(case.get("rep") or {})
+    return r
+
+
+def _scalar_value(x, rep):
+    """the value (a Python float) that is handed over in representation `rep`"""
+    if rep == "np.float32":
+        return float(np.float32(x))
+    if rep == "pyint":
+        return float(max(1, int(round(x))))
+    return float(x)
+
+
+def _scalar_obj(x, rep):
+    v = _scalar_value(x, rep)
+    return {"pyfloat": float, "np.float64": np.float64, "np.float32": np.float32, "0-d array": lambda y: np.array(y, dtype=float),
+            "pyint": lambda y: int(y)}[rep](v)
+
+
+def _eff_TD(case):
+    r = _rep(case)
+    return _scalar_value(case["T"], r["T"]), _scalar_value(case["D"], r["D"])
+
+
+def _vec_values(x, rep):
+    x = np.asarray(x, dtype=np.float64)
+    return x.astype(np.float32).astype(np.float64) if rep == "float32" else np.array(x, copy=True)
+
+
+def _vec_obj(values, rep):
+    if rep == "float32":
+        return values.astype(np.float32)
+    if rep == "noncontig":
+        big = np.full(3 * len(values) + 1, -777.0)
+        big[1::3] = values
+        return big[1::3]
+    if rep == "readonly":
+        y = np.array(values, copy=True)
+        y.setflags(write=False)
+        return y
+    return np.array(values, copy=True)
+
+
+def _sp_obj(m, rep):
+    from scipy import sparse
+    if rep in ("asread", "asreturned"):
+        return m.copy()
+    if rep == "dense":
+        return m.toarray()
+    if rep == "np.matrix":
+        return np.asmatrix(m.toarray())
+    return getattr(sparse, rep)(m)
+
+
+def _to_dense(m):
+    return m.toarray() if hasattr(m, "toarray") else np.asarray(m)
+
+
+def _random_rep(rng):
+    """seed-chosen representation of one pipeline run (value preserving ones only: V stays float64-valued)"""
+    r = {"B": rng.choice(SP_REPS), "Dm": rng.choice(SP_REPS), "V": rng.choice(["float64", "noncontig", "readonly"]),
+         "E": rng.choice(E_REPS), "T": rng.choice(SCALAR_REPS[:4]), "D": rng.choice(SCALAR_REPS[:4]), "Q": rng.choice(Q_REPS)}
+    return r
+
+
+# the two small fixed pipelines of the exhaustive sweep
+SWEEP_PIPES = (
+    {"b": "1", "o": "ico_7", "t": "[0.2, 0.3]", "cart": False, "f": 1.0, "T": 300.0, "D": 0.75,
+     "E": {"mode": "normal", "sig": 2.0, "seed": 31}},
+    {"b": "4", "o": "cube3D_6", "t": "[0.3, 0.5, 0.8]", "cart": True, "f": 2.0, "T": 268.5, "D": 3.0,
+     "E": {"mode": "smooth", "sig": 2.5, "seed": 32}},
+)
+SWEEP_SOLVERS = ({"which": "LM", "sigma_rel": 0.05, "tol": 1e-12}, {"which": "LR", "sigma_rel": None, "tol": 1e-12})
+
+
+def _sweep_cases():
+    """exhaustive over the families on the two fixed pipelines: borders x distances (8 x 8), volumes x energies, T x D,
+    matrix handed to DecompositionTool x two solver settings; the remaining choices cycle so that every value occurs"""
+    out = []
+    for pi, pipe in enumerate(SWEEP_PIPES):
+        k = 0
+
+        def mk(rep, solver=SWEEP_SOLVERS[0], **extra):
+            c = {"kind": "grid", "light": True, "suffix": False, "solver": dict(solver), **{a: (dict(b) if isinstance(b, dict) else b) for a, b in pipe.items()}}
+            c["rep"] = rep
+            c.update(extra)
+            return c
+        out.append(mk(dict(DEFAULT_REP), model=True, probe=(pi == 0)))
+        for rb in SP_REPS:
+            for rd in SP_REPS:
+                k += 1
+                out.append(mk({"B": rb, "Dm": rd, "V": V_REPS[k % 4], "E": E_REPS[k % 3], "T": SCALAR_REPS[k % 4], "D": SCALAR_REPS[(k // 4) % 4],
+                               "Q": Q_REPS[k % len(Q_REPS)]}))
+        for rv in V_REPS:
+            for re_ in E_REPS:
+                k += 1
+                out.append(mk({"B": SP_REPS[k % 8], "Dm": SP_REPS[(k // 2) % 8], "V": rv, "E": re_, "T": "pyfloat", "D": "pyfloat", "Q": "asreturned"},
+                              model=(rv == "float32" and re_ == "float64")))
+        for rt in SCALAR_REPS:
+            for rdd in SCALAR_REPS:
+                k += 1
+                out.append(mk({"B": SP_REPS[k % 8], "Dm": "asread", "V": "float64", "E": "float64", "T": rt, "D": rdd, "Q": "asreturned"},
+                              model=(rt == rdd and rt in ("np.float32", "pyint"))))
+        for rq in Q_REPS:
+            for sv in SWEEP_SOLVERS:
+                k += 1
+                out.append(mk({"B": SP_REPS[k % 8], "Dm": SP_REPS[(k + 3) % 8], "V": "float64", "E": "float64", "T": "pyfloat", "D": "pyfloat", "Q": rq}, solver=sv))
+    return out
+
+
+def _probe_rejected():
+    """outcome, on the tree under test, of the representations that are *not* part of the sweep (evidence only)"""
+    from scipy import sparse
+    from molgri.molecules.transitions import SQRA, DecompositionTool
+    g = _geometry({**SWEEP_PIPES[0], "suffix": False, "light": True})
+    V, B, Dm = np.asarray(g["V"], dtype=float), g["B"], g["Dm"]
+    E = np.round(_energies(SWEEP_PIPES[0]["E"], len(V)) * 8) / 8           # exactly representable in float32
+    ref = SQRA(E, V, Dm, B).get_rate_matrix(0.75, 300.0).toarray()
+    res = {}
+
+    def run(name, f):
+        try:
+            q = _to_dense(f())
+            rel = float(np.abs(q - ref).max() / np.abs(ref).max()) if q.shape == ref.shape else None
+            res[name] = "accepted, equal to the reference" if rel == 0 else f"accepted, differs from the reference by {rel:.1e} relative"
+        except Exception as e:
+            res[name] = f"{type(e).__name__}: {str(e)[:80]}"
+    run("borders dok_array", lambda: SQRA(E, V, Dm, sparse.dok_array(B)).get_rate_matrix(0.75, 300.0))
+    run("distances dok_matrix", lambda: SQRA(E, V, sparse.dok_matrix(Dm), B).get_rate_matrix(0.75, 300.0))
+    run("borders dense ndarray", lambda: SQRA(E, V, Dm, B.toarray()).get_rate_matrix(0.75, 300.0))
+    run("distances np.matrix", lambda: SQRA(E, V, np.asmatrix(Dm.toarray()), B).get_rate_matrix(0.75, 300.0))
+    run("volumes list", lambda: SQRA(E, [float(x) for x in V], Dm, B).get_rate_matrix(0.75, 300.0))
+    run("energies list", lambda: SQRA([float(x) for x in E], V, Dm, B).get_rate_matrix(0.75, 300.0))
+    run("volumes tuple", lambda: SQRA(E, tuple(float(x) for x in V), Dm, B).get_rate_matrix(0.75, 300.0))
+    run("volumes column (n,1)", lambda: SQRA(E, V.reshape(-1, 1), Dm, B).get_rate_matrix(0.75, 300.0))
+    run("energies dtype=object", lambda: SQRA(E.astype(object), V, Dm, B).get_rate_matrix(0.75, 300.0))
+    run("energies float32 (multiples of 1/8)", lambda: SQRA(E.astype(np.float32), V, Dm, B).get_rate_matrix(0.75, 300.0))
+    run("D fractions.Fraction", lambda: SQRA(E, V, Dm, B).get_rate_matrix(__import__("fractions").Fraction(3, 4), 300.0))
+    run("T decimal.Decimal", lambda: SQRA(E, V, Dm, B).get_rate_matrix(0.75, __import__("decimal").Decimal(300)))
+    run("T str", lambda: SQRA(E, V, Dm, B).get_rate_matrix(0.75, "300"))
+    q = SQRA(E, V, Dm, B).get_rate_matrix(0.75, 300.0)
+    try:
+        DecompositionTool(q.toarray().tolist()).get_decomposition(tol=1e-12, maxiter=1000, which="LR", sigma=None, k=4)
+        res["rate matrix as list of lists"] = "accepted"
+    except Exception as e:
+        res["rate matrix as list of lists"] = f"{type(e).__name__}: {str(e)[:80]}"
+    return res
+
 
 # ------------------------------------------------------------------------------------------------
 # generators
@@ -235,7 +420,8 @@ def _ramp_case(rng, thorough, strong=False):
             "offset": rng.choice([0.0, 0.0, 1e5, -1e5]), "down": rng.random() < 0.5, "seed": rng.randrange(10 ** 6)}
     return {"kind": "grid", "b": b, "o": o, "t": t, "cart": rng.random() < 0.4, "f": rng.choice([0.5, 1.0, 2.0, 3.0]),
             "T": round(rng.uniform(200, 300), 1) if strong else round(rng.uniform(200, 400), 1),
-            "D": float(f"{10 ** rng.uniform(-2, 1):.4g}"), "E": spec, "suffix": rng.random() < 0.5, "solver": None}
+            "D": float(f"{10 ** rng.uniform(-2, 1):.4g}"), "E": spec, "suffix": rng.random() < 0.5, "solver": None,
+            "rep": _random_rep(rng)}
 
 
 def _grid_case(rng, thorough, **fix):
@@ -245,6 +431,7 @@ def _grid_case(rng, thorough, **fix):
          "f": rng.choice([0.5, 1.0, 2.0, 3.0]), "T": round(rng.uniform(200, 400), 1),
          "D": float(f"{10 ** rng.uniform(-2, 1):.4g}"), "E": _espec(rng), "suffix": rng.random() < 0.5}
     c["solver"] = None if c["E"]["mode"] == "capped" else _solver(rng)
+    c["rep"] = _random_rep(rng)
     c.update(fix)
     return c
 
@@ -252,6 +439,8 @@ def _grid_case(rng, thorough, **fix):
 def cases(ctx):
     rng = ctx.rng
     thorough = not ctx.quick
+    # input representations: exhaustive sweep over the families on two small fixed pipelines (geometry cached)
+    yield from _sweep_cases()
     # structured sweep first: every b-family x o-family x mode at least once (sizes kept small in the quick tier: the
     # interpreted Lean model needs ~5 s for a 300-cell grid)
     combos = []
@@ -356,87 +545,126 @@ def impl(case):
     return _impl_io(case)
 
 
-def _impl_grid(case):
+_GEOM_CACHE = {}
+
+
+def _geometry(case):
+    """GridWriter -> five files in a temp dir -> GridReader, plus what the writer's grid and its sub-grids return.
+    Cases marked "light" (the representation sweep on fixed pipelines) share one cached geometry."""
     from molgri.io import GridWriter, GridReader
-    from molgri.molecules.transitions import SQRA, DecompositionTool
-    TAP.install()
+    key = (case["b"], case["o"], case["t"], case["cart"], case["f"], bool(case.get("suffix")))
+    if case.get("light") and key in _GEOM_CACHE:
+        return dict(_GEOM_CACHE[key])
     out = {}
     d = tempfile.mkdtemp(prefix="c14_")
     try:
-        with core.quiet():
-            try:
-                gw = GridWriter(case["b"], case["o"], case["t"], factor=case["f"], position_grid_cartesian=case["cart"])
-                fg = gw.fg
-                args = [os.path.join(d, s + (e if case.get("suffix") else "")) for s, e in zip(_PATH_STEMS, _EXTS)]
-                gw.save_full_grid(args[0])
-                gw.save_adjacency_array(args[4])
-                gw.save_borders_array(args[2])
-                gw.save_distances_array(args[3])
-                gw.save_volumes(args[1])
-            except Exception as e:
-                return {"err": core.errname(e), "stage": "writer", "msg": str(e)[:200]}
-            out["files"] = sorted(os.listdir(d))
-            tg = [os.path.join(d, s + e) for s, e in zip(_PATH_STEMS, _EXTS)]
-            try:
-                gr = GridReader()
-                G = gr.load_full_grid(tg[0])
-                V = gr.load_volumes(tg[1])
-                B = gr.load_borders_array(tg[2])
-                Dm = gr.load_distances_array(tg[3])
-                A = gr.load_adjacency_array(tg[4])
-            except Exception as e:
-                return {"err": core.errname(e), "stage": "reader", "msg": str(e)[:200], **out}
-            out.update(G=G, V=V, B=B, Dm=Dm, A=A)
-            # what the writer's grid returns, independently of the files (reader o writer = id)
-            out["getters"] = {"G": fg.get_full_grid_as_array(), "V": np.asanyarray(fg.get_total_volumes()),
-                              "B": fg.get_full_borders(), "Dm": fg.get_full_distances(), "A": fg.get_full_adjacency()}
-            # sub-grid inputs of the model
-            n_b = fg.b_rotations.get_N()
-            sub = {"nB": int(n_b), "nP": int(len(fg.get_position_grid())), "n_o": int(fg.o_rotations.get_N()),
-                   "o_alg": fg.o_rotations.algorithm_name, "b_alg": fg.b_rotations.algorithm_name}
-            for name, sel in SELS:
-                sub["P_" + name] = np.asarray(fg.position_grid._get_N_N_position_array(sel_property=sel).toarray(), dtype=float)
-                if n_b > 1:
-                    sub["R_" + name] = _coo_list(fg.b_rotations.get_spherical_voronoi()._calculate_N_N_array(sel_property=sel))
-                else:
-                    sub["R_" + name] = ([], [], [])
-            sub["Vpos"] = [float(x) for x in fg.get_position_grid().get_all_position_volumes()]
-            sub["Vrot"] = [float(x) for x in fg.b_rotations.get_spherical_voronoi().get_voronoi_volumes()]
-            sub["positions"] = np.asarray(fg.position_grid.get_position_grid_as_array(), dtype=float)
-            sub["quats"] = np.asarray(fg.b_rotations.get_grid_as_array(only_upper=True), dtype=float)
-            out["sub"] = sub
-            n = len(V)
-            E = _energies(case["E"], n, G=G, A=A)
-            out["E"] = E
-            try:
-                Q = SQRA(E, V, Dm, B).get_rate_matrix(case["D"], case["T"])
-            except Exception as e:
-                out["rate_err"] = core.errname(e)
-                return out
-            out["Q"] = Q
-            sv = case.get("solver")
-            if sv is None or n < 4:
-                return out
-            k = min(12, n - 2)
-            Qd = Q.toarray()
-            nrm = float(np.abs(Qd).sum(axis=1).max())
-            sigma = None if sv["sigma_rel"] is None else float(sv["sigma_rel"]) * nrm
-            out.update(k=k, nrm=nrm, sigma=sigma)
-            TAP.raw = None
-            TAP.stub = None
-            TAP.rng = int(case["E"]["seed"]) % 1000
-            try:
-                ev, evec = DecompositionTool(Q).get_decomposition(tol=sv["tol"], maxiter=100000, which=sv["which"],
-                                                                  sigma=sigma, k=k)
-                out["ev"], out["evec"], out["raw"] = np.array(ev), np.array(evec), TAP.raw
-                A0 = TAP.args[0] if getattr(TAP, "args", None) else None
-                out["eigs_call"] = {"kw": {a: (None if b is None else (b if isinstance(b, str) else float(b))) for a, b in (TAP.kwargs or {}).items()},
-                                    "n_pos": len(TAP.args), "A_is_QT": bool(A0 is not None and A0.shape == Q.shape and abs(A0 - Q.T).max() == 0)}
-            except Exception as e:
-                out["eig_err"] = core.errname(e) if not type(e).__name__.startswith("Arpack") else "other:" + type(e).__name__
-                out["eig_msg"] = str(e)[:200]
+        try:
+            gw = GridWriter(case["b"], case["o"], case["t"], factor=case["f"], position_grid_cartesian=case["cart"])
+            fg = gw.fg
+            args = [os.path.join(d, s + (e if case.get("suffix") else "")) for s, e in zip(_PATH_STEMS, _EXTS)]
+            gw.save_full_grid(args[0])
+            gw.save_adjacency_array(args[4])
+            gw.save_borders_array(args[2])
+            gw.save_distances_array(args[3])
+            gw.save_volumes(args[1])
+        except Exception as e:
+            return {"err": core.errname(e), "stage": "writer", "msg": str(e)[:200]}
+        out["files"] = sorted(os.listdir(d))
+        tg = [os.path.join(d, s + e) for s, e in zip(_PATH_STEMS, _EXTS)]
+        try:
+            gr = GridReader()
+            G = gr.load_full_grid(tg[0])
+            V = gr.load_volumes(tg[1])
+            B = gr.load_borders_array(tg[2])
+            Dm = gr.load_distances_array(tg[3])
+            A = gr.load_adjacency_array(tg[4])
+        except Exception as e:
+            return {"err": core.errname(e), "stage": "reader", "msg": str(e)[:200], **out}
+        out.update(G=G, V=V, B=B, Dm=Dm, A=A)
+        # what the writer's grid returns, independently of the files (reader o writer = id)
+        out["getters"] = {"G": fg.get_full_grid_as_array(), "V": np.asanyarray(fg.get_total_volumes()),
+                          "B": fg.get_full_borders(), "Dm": fg.get_full_distances(), "A": fg.get_full_adjacency()}
+        # sub-grid inputs of the model
+        n_b = fg.b_rotations.get_N()
+        sub = {"nB": int(n_b), "nP": int(len(fg.get_position_grid())), "n_o": int(fg.o_rotations.get_N()),
+               "o_alg": fg.o_rotations.algorithm_name, "b_alg": fg.b_rotations.algorithm_name}
+        for name, sel in SELS:
+            sub["P_" + name] = np.asarray(fg.position_grid._get_N_N_position_array(sel_property=sel).toarray(), dtype=float)
+            if n_b > 1:
+                sub["R_" + name] = _coo_list(fg.b_rotations.get_spherical_voronoi()._calculate_N_N_array(sel_property=sel))
+            else:
+                sub["R_" + name] = ([], [], [])
+        sub["Vpos"] = [float(x) for x in fg.get_position_grid().get_all_position_volumes()]
+        sub["Vrot"] = [float(x) for x in fg.b_rotations.get_spherical_voronoi().get_voronoi_volumes()]
+        sub["positions"] = np.asarray(fg.position_grid.get_position_grid_as_array(), dtype=float)
+        sub["quats"] = np.asarray(fg.b_rotations.get_grid_as_array(only_upper=True), dtype=float)
+        out["sub"] = sub
     finally:
         shutil.rmtree(d, ignore_errors=True)
+    if case.get("light"):
+        _GEOM_CACHE[key] = dict(out)
+    return out
+
+
+def _impl_grid(case):
+    from molgri.molecules.transitions import SQRA, DecompositionTool
+    TAP.install()
+    with core.quiet():
+        out = _geometry(case)
+        if "err" in out:
+            return out
+        if case.get("probe"):
+            out["probe"] = _probe_rejected()
+        G, V, B, Dm, A = out["G"], out["V"], out["B"], out["Dm"], out["A"]
+        n = len(V)
+        rep = _rep(case)
+        E = _vec_values(_energies(case["E"], n, G=G, A=A), rep["E"])
+        Vin = _vec_values(V, rep["V"])                  # the values handed to SQRA (float64 image of them)
+        Tval, Dval = _eff_TD(case)
+        out.update(E=E, Vin=Vin, Tval=Tval, Dval=Dval)
+        nondefault = rep != DEFAULT_REP
+        try:
+            Q = SQRA(_vec_obj(E, rep["E"]), _vec_obj(Vin, rep["V"]), _sp_obj(Dm, rep["Dm"]), _sp_obj(B, rep["B"])).get_rate_matrix(
+                _scalar_obj(case["D"], rep["D"]), _scalar_obj(case["T"], rep["T"]))
+        except Exception as e:
+            out["rate_err"] = core.errname(e)
+            out["rate_msg"] = str(e)[:200]
+            if nondefault:      # is it the representation?
+                try:
+                    SQRA(E, Vin, Dm, B).get_rate_matrix(Dval, Tval)
+                    out["rate_err_only_in_rep"] = True
+                except Exception:
+                    pass
+            return out
+        out["Q"] = Q
+        if nondefault:
+            # the same values in the reference representation (what GridReader returns, float64 arrays, Python floats)
+            try:
+                out["Qref"] = SQRA(np.array(E), np.array(Vin), Dm, B).get_rate_matrix(Dval, Tval)
+            except Exception as e:
+                out["Qref_err"] = core.errname(e)
+        sv = case.get("solver")
+        if sv is None or n < 4:
+            return out
+        k = min(12, n - 2)
+        Qd = _to_dense(Q)
+        nrm = float(np.abs(Qd).sum(axis=1).max())
+        sigma = None if sv["sigma_rel"] is None else float(sv["sigma_rel"]) * nrm
+        out.update(k=k, nrm=nrm, sigma=sigma)
+        TAP.raw = None
+        TAP.stub = None
+        TAP.rng = int(case["E"]["seed"]) % 1000
+        try:
+            ev, evec = DecompositionTool(_sp_obj(Q, rep["Q"])).get_decomposition(tol=sv["tol"], maxiter=100000, which=sv["which"],
+                                                                                  sigma=sigma, k=k)
+            out["ev"], out["evec"], out["raw"] = np.array(ev), np.array(evec), TAP.raw
+            A0 = TAP.args[0] if getattr(TAP, "args", None) else None
+            out["eigs_call"] = {"kw": {a: (None if b is None else (b if isinstance(b, str) else float(b))) for a, b in (TAP.kwargs or {}).items()},
+                                "n_pos": len(TAP.args),
+                                "A_is_QT": bool(A0 is not None and _to_dense(A0).shape == Qd.shape and np.array_equal(np.asarray(_to_dense(A0)), Qd.T))}
+        except Exception as e:
+            out["eig_err"] = core.errname(e) if not type(e).__name__.startswith("Arpack") else "other:" + type(e).__name__
+            out["eig_msg"] = str(e)[:200]
     return out
 
 
@@ -533,6 +761,12 @@ def model_ops(case, out):
     ops = [{"op": "consts"}]
     if "err" in out or len(out["V"]) > MODEL_MAX_N:
         return ops
+    fb = core.fbits
+    Tval, Dval = out["Tval"], out["Dval"]
+    rate_op = {"op": "rate", "E": [fb(x) for x in out["E"]], "V": [fb(x) for x in out["Vin"]], "D": fb(Dval), "T": fb(Tval),
+               "dist": _sp_bits(out["Dm"]), "surf": _sp_bits(out["B"])}
+    if case.get("light"):       # representation sweep: the model (representation-free) once per distinct set of values
+        return ops + ([rate_op] if case.get("model") else [])
     sub = out["sub"]
     for name, _sel in SELS:
         r, c, v = sub["R_" + name]
@@ -541,9 +775,7 @@ def model_ops(case, out):
                     "R": [[a, b, core.rat(x)] for a, b, x in zip(r, c, v)]})
     ops.append({"op": "volumes", "f": core.rat(case["f"]), "Vpos": [core.rat(x) for x in sub["Vpos"]],
                 "Vrot": [core.rat(x) for x in sub["Vrot"]]})
-    fb = core.fbits
-    ops.append({"op": "rate", "E": [fb(x) for x in out["E"]], "V": [fb(x) for x in out["V"]], "D": fb(case["D"]), "T": fb(case["T"]),
-                "dist": _sp_bits(out["Dm"]), "surf": _sp_bits(out["B"])})
+    ops.append(rate_op)
     subj = {"nP": sub["nP"], "nB": sub["nB"], "f": fb(case["f"]), "Vpos": [fb(x) for x in sub["Vpos"]],
             "Vrot": [fb(x) for x in sub["Vrot"]], "positions": [[fb(x) for x in row] for row in sub["positions"]],
             "quats": [[fb(x) for x in row] for row in sub["quats"]]}
@@ -551,8 +783,8 @@ def model_ops(case, out):
         r, c, v = sub["R_" + name]
         subj["P" + key] = [[fb(x) for x in row] for row in sub["P_" + name]]
         subj["R" + key] = [[a, b, fb(x)] for a, b, x in zip(r, c, v)]
-    ops.append({"op": "pipeline", "sub": subj, "paths": list(_PATH_STEMS), "E": [fb(x) for x in out["E"]], "D": fb(case["D"]),
-                "T": fb(case["T"])})
+    ops.append({"op": "pipeline", "sub": subj, "paths": list(_PATH_STEMS), "E": [fb(x) for x in out["E"]], "D": fb(Dval),
+                "T": fb(Tval)})
     if "raw" in out and out["raw"] is not None:
         vals, vecs = out["raw"]
         ops.append({"op": "sorteig", "vals": [[core.rat(z.real), core.rat(z.imag)] for z in vals],
@@ -589,6 +821,42 @@ def _cmp_entries(ctx, what, case, m, model_entries, conv, rel, diag_abs=None):
             ctx.corr(what + "/value", _short(case), {"row": a, "col": b, "value": x}, {"value": float(y)})
             return False
     return True
+
+
+def _cmp_rate(ctx, what, case, out, m):
+    if "rate_err" in out or "err" in m:
+        if out.get("rate_err") != m.get("err"):
+            ctx.corr(what + "/outcome", _short(case), out.get("rate_err", "ok"), m.get("err", "ok"))
+        return
+    Q = out["Q"]
+    mm = m["ok"]
+    if mm["fmt"] != getattr(Q, "format", None) or mm["n"] != Q.shape[0] or Q.shape[0] != Q.shape[1]:
+        ctx.corr(what + "/format-shape", _short(case), [getattr(Q, "format", None), list(Q.shape)], [mm["fmt"], mm["n"]])
+        return
+    _cmp_entries(ctx, what, case, Q, mm["entries"], core.unfbits, 1e-10, diag_abs=1e-12)
+
+
+def _cmp_eigs_call(ctx, case, out):
+    if "eigs_call" in out:
+        # line 387: the solver gets the transpose and the user's settings unchanged
+        sv = case["solver"]
+        want = {"kw": {"k": float(out["k"]), "tol": float(sv["tol"]), "maxiter": 100000.0, "which": sv["which"],
+                       "sigma": None if out["sigma"] is None else float(out["sigma"])}, "n_pos": 1, "A_is_QT": True}
+        if out["eigs_call"] != want:
+            ctx.corr("eigs/call-arguments", _short(case), out["eigs_call"], want)
+
+
+def _rep_evidence(ctx, case, out):
+    rep = _rep(case)
+    for fam in ("B", "Dm", "V", "E", "T", "D"):
+        ctx.branch(f"rep:{fam}={rep[fam]}")
+    if "ev" in out:
+        ctx.branch(f"rep:Q={rep['Q']}")
+    if "probe" in out:
+        ctx.extra_cov["representations_not_in_sweep"] = {"declared": REPS_NOT_IN_SWEEP, "probed_on_this_tree": out["probe"]}
+        ctx.extra_cov["representations_in_sweep"] = {"borders, distances": list(SP_REPS), "volumes": list(V_REPS), "energies": list(E_REPS),
+                                                      "T, D": list(SCALAR_REPS), "matrix for DecompositionTool": list(Q_REPS),
+                                                      "pipelines": [{k: v for k, v in p_.items()} for p_ in SWEEP_PIPES]}
 
 
 def compare(ctx, case, out, mouts):
@@ -637,8 +905,17 @@ def compare(ctx, case, out, mouts):
         ctx.branch("writer_or_reader_error:" + out["err"])
         return
     sub = out["sub"]
+    _rep_evidence(ctx, case, out)
     if len(out["V"]) > MODEL_MAX_N:
         ctx.branch("model_skipped_large_n")
+        return
+    if case.get("light"):
+        if case.get("model"):
+            _cmp_rate(ctx, "rate", case, out, mouts[1])
+        _cmp_eigs_call(ctx, case, out)
+        ctx.branch("representation_sweep_case")
+        if "Q" in out:
+            ctx.nt(("rep", case["b"], case["o"], str(_rep(case)), str(case.get("solver"))))
         return
     i = 1
     ok = True
@@ -659,23 +936,8 @@ def compare(ctx, case, out, mouts):
     for what in ("rate", "pipeline"):
         m = mouts[i]
         i += 1
-        if "rate_err" in out or "err" in m:
-            if out.get("rate_err") != m.get("err"):
-                ctx.corr(what + "/outcome", _short(case), out.get("rate_err", "ok"), m.get("err", "ok"))
-            continue
-        Q = out["Q"]
-        mm = m["ok"]
-        if mm["fmt"] != Q.format or mm["n"] != Q.shape[0] or Q.shape[0] != Q.shape[1]:
-            ctx.corr(what + "/format-shape", _short(case), [Q.format, list(Q.shape)], [mm["fmt"], mm["n"]])
-            continue
-        _cmp_entries(ctx, what, case, Q, mm["entries"], core.unfbits, 1e-10, diag_abs=1e-12)
-    if "eigs_call" in out:
-        # line 387: the solver gets the transpose and the user's settings unchanged
-        sv = case["solver"]
-        want = {"kw": {"k": float(out["k"]), "tol": float(sv["tol"]), "maxiter": 100000.0, "which": sv["which"],
-                       "sigma": None if out["sigma"] is None else float(out["sigma"])}, "n_pos": 1, "A_is_QT": True}
-        if out["eigs_call"] != want:
-            ctx.corr("eigs/call-arguments", _short(case), out["eigs_call"], want)
+        _cmp_rate(ctx, what, case, out, m)
+    _cmp_eigs_call(ctx, case, out)
     if "raw" in out and out["raw"] is not None:
         m = mouts[i]
         if "err" in m:
@@ -817,6 +1079,8 @@ def oracle(ctx, case, out):
             return
     V, B, Dm, A, E = out["V"], out["B"], out["Dm"], out["A"], out["E"]
     n = len(V)
+    Tval = out["Tval"]
+    rep = _rep(case)
     # (1b) "over the cells in grid order": cell n is (position n // n_b, rotation n % n_b) in the saved grid and in the volumes
     nB, nP = sub["nB"], sub["nP"]
     G = np.asarray(out["G"])
@@ -833,18 +1097,45 @@ def oracle(ctx, case, out):
         ctx.fail("C14:volume_order", f"saved volume of cell {k} is not Vpos[{k} // n_b] * f^3 * Vrot[{k} % n_b]", _short(case),
                  float(Vspec[k]), float(V[k]))
         return
+    if out.get("rate_err_only_in_rep"):
+        ctx.fail("C14:representation", f"get_rate_matrix raised {out['rate_err']} ({out.get('rate_msg')}) for the input representation {_rep(case)} "
+                 "but not for the same values in the reference representation", _short(case))
+        return
     if "rate_err" in out:
         ctx.fail(f11key if f11 else _key("C14:exception:rate", case),
                  f"get_rate_matrix raised {out['rate_err']} on saved geometry (borders nnz {B.nnz}, distances nnz {Dm.nnz}, "
                  f"adjacency nnz {A.nnz}, zero volumes {int((np.asarray(V) == 0).sum())})", _short(case))
         return
     Q = out["Q"]
-    Qd = Q.toarray()
+    Qd = _to_dense(Q)
     off = ~np.eye(n, dtype=bool)
     ramp = case["E"]["mode"] in RAMP_MODES
+    # (1d) the result does not depend on the representation of the inputs: same values as what GridReader returns / float64
+    #      arrays / Python floats give the same matrix
+    if "Qref_err" in out:
+        ctx.fail("C14:representation", f"the reference representation raised {out['Qref_err']} but {rep} did not", _short(case))
+        return
+    if "Qref" in out:
+        Qr = _to_dense(out["Qref"])
+        obs = None
+        if Qd.shape != Qr.shape:
+            obs = {"shape_with_rep": list(Qd.shape), "shape_reference": list(Qr.shape)}
+        else:
+            fin = np.isfinite(Qr) & np.isfinite(Qd)
+            with np.errstate(invalid="ignore"):
+                mism = (np.isfinite(Qr) != np.isfinite(Qd)) | (fin & (np.abs(Qd - Qr) > 1e-12 * np.abs(Qr) + 1e-300))
+            if np.any(mism):
+                k = tuple(int(x) for x in np.argwhere(mism)[0])
+                obs = {"entry": list(k), "with_rep": float(Qd[k]), "reference": float(Qr[k]), "entries_differing": int(mism.sum()),
+                       "stored_offdiag_rep": int(((Qd != 0) & off).sum()), "stored_offdiag_reference": int(((Qr != 0) & off).sum())}
+        if obs is not None:
+            ctx.fail("C14:representation", f"rate matrix depends on the representation of the inputs {rep} (the same values as float64 arrays, "
+                     "Python floats and the matrices as GridReader returns them give another matrix)", _short(case), None, obs)
+            return
+        ctx.branch("representation_invariance_checked")
     if ramp:
         c_ = A.tocoo()
-        ctx.branch("ramp_energies:range>708*2RT" if (E.max() - E.min()) > 708 * 2 * R_GAS * case["T"] / 1000.0 else "ramp_energies:range<=708*2RT")
+        ctx.branch("ramp_energies:range>708*2RT" if (E.max() - E.min()) > 708 * 2 * R_GAS * Tval / 1000.0 else "ramp_energies:range<=708*2RT")
         if c_.nnz and float(np.abs(E[c_.row] - E[c_.col]).max()) >= 500:
             raise core.HarnessError(f"ramp generator produced neighbouring cells beyond the cap: {_short(case)}")
     # (1c) every entry finite (energies whose neighbouring differences are below the cap, whatever their range and offset)
@@ -876,7 +1167,8 @@ def oracle(ctx, case, out):
         ctx.fail("C14:row_sum", f"row {i} sums to {Qd[i].sum()} (|row| {ra[i]})", _short(case))
         return
     # (4) detailed balance w.r.t. V_i exp(-E_i/RT), pairs below the cap, in log space
-    RT = R_GAS * case["T"] / 1000.0
+    RT = R_GAS * Tval / 1000.0
+    V = out["Vin"]          # the volumes handed to SQRA (= the saved ones, or their float32 image in that representation)
     ii, jj = np.nonzero(pat)
     if len(ii):
         if np.any(Qd[ii, jj] < 0):
@@ -945,7 +1237,7 @@ def oracle(ctx, case, out):
                  None, {"eigenvalue": float(ev[int(np.argmax(miss))]), "distance/norm": max(miss) / nrm})
         return
     # every returned pair is a left eigenpair:  Q^T v = lambda v
-    res = np.linalg.norm(Q.T @ evec - evec * ev[None, :], axis=0) / (nrm * np.maximum(np.linalg.norm(evec, axis=0), 1e-300))
+    res = np.linalg.norm(Qd.T @ evec - evec * ev[None, :], axis=0) / (nrm * np.maximum(np.linalg.norm(evec, axis=0), 1e-300))
     tol_res = 1e-6 if strict else 100 * sv["tol"] + 1e-6
     if res.max() > tol_res:
         c = int(np.argmax(res))
